@@ -98,6 +98,10 @@ func cmdCases(args []string) {
 		obs, err = cases.LRU(w, raws)
 	case "response":
 		obs, err = cases.Response(w, raws)
+	case "routing":
+		obs, err = cases.Routing(w, raws)
+	case "proxyxform":
+		obs, err = cases.ProxyXform(w, raws)
 	default:
 		fatal("unknown kind %s", *kind)
 	}
